@@ -1191,7 +1191,7 @@ def run(ctx):
         "tolerances: 1e-6 m for node positions / coverage, 1e-9 relative for "
         "width ratios and the minimum width")
     q = ctx.quick
-    total = ctx.budget or (85 if q else 880)
+    total = ctx.budget or (340 if q else 1760)
     t_start = ctx.elapsed()
 
     def cap(share):
